@@ -552,7 +552,8 @@ impl<'a> Exec<'a> {
             }
             if !r.is_stopped() {
                 let fb = r.compute_ff_bytes().map(|b| b.len()).unwrap_or(0);
-                if fb >= 50_000 || hist.len() >= 6000 {
+                let cap = self.ctx.sc.world.limits.step_max_items.max(64);
+                if fb >= cap || hist.len() >= cap / 8 {
                     return self.skip_c("unbounded_forcing");
                 }
             }
